@@ -21,7 +21,8 @@ ASSUMPTIONS = ['firmware layouts: crtp_commander_rpyt / crtp_commander_generic (
                'legacy (protocol version <= 8) velocity/zdistance/hover packets carry the yaw rate negated',
                'full-state rates are sent as value*1000 fixed point (unit as passed by the caller)']
 REQUIRED = ['mon.rpyt', 'mon.generic_setpoints', 'mon.full_state', 'mon.high_level', 'mon.localization', 'mon.platform',
-            'mon.lpp', 'mon.refused', 'mon.headers', 'mon.legacy_versions', 'mon.xmode']
+            'mon.lpp', 'mon.refused', 'mon.headers', 'mon.legacy_versions', 'mon.xmode', 'mon.full_state_orientation_judged',
+            'mon.full_state_negated_orientation']
 
 VERSIONS = (-1, 3, 4, 7, 8, 9, 10)
 SPECIAL = [0.0, -0.0, float('inf'), float('-inf'), float('nan'), 1e-45, 1e-39, 3.4028234663852886e38, 1e38, 1e39, -1e39,
@@ -197,7 +198,11 @@ def one(ctx, cf, rnd, version, xmode):
                 ctx.count('mon.generic_setpoints')
                 cf.commander.send_position_setpoint(*args)
             elif cmd == 'full':
-                def v3(lim):
+                inrange = rnd.random() < 0.75    # most calls must be encodable, else the orientation is never judged
+
+                def v3(lim, inrange=inrange):
+                    if inrange:
+                        return [rnd.choice((rnd.uniform(-32.7, 32.7), rnd.uniform(-1, 1), 32.767, -32.768, 0.0)) for _ in range(3)]
                     return [rnd.choice((rnd.uniform(-lim, lim), rnd.uniform(-1, 1), 32.767, -32.768, 32.768, -32.769, 0.0, 40.0))
                             for _ in range(3)]
                 pos, vel, acc = v3(33), v3(33), v3(33)
@@ -221,6 +226,9 @@ def one(ctx, cf, rnd, version, xmode):
                     n = math.sqrt(sum(x * x for x in q))
                     qh = [x / n for x in q]
                     e = min(max(abs(a - b) for a, b in zip(dq, qh)), max(abs(a + b) for a, b in zip(dq, qh)))
+                    ctx.count('mon.full_state_orientation_judged')
+                    if max(qh, key=abs) < 0 and sum(1 for x in qh if x < 0) >= 2:
+                        ctx.count('mon.full_state_negated_orientation')
                     return e <= 2 * (1 / math.sqrt(2)) / 511
                 ctx.count('mon.full_state')
                 cf.commander.send_full_state_setpoint(*args)
